@@ -104,6 +104,11 @@ theorem woken_clears (s s' : St) (e : Ev) (hpc : s.pc = .woken) (hs : step s e =
   all_goals (simp only [Option.some.injEq] at hs; subst hs)
   all_goals simp_all
 
+/-- session events other than Expired and Connected (Disconnected, Connecting, HasSession, …) are
+    ignored by the zookeeper coordinator: in particular none of them makes the session count as
+    connected.  (All theorems above quantify over event sequences that may contain them anywhere.) -/
+theorem other_session_events_change_nothing (s : St) : step s .otherSession = some s := rfl
+
 /-! ### the lost wake-up (known finding D12) -/
 
 /-- the expiry is broadcast after `Lock()` returned and before the manager waits: nobody is woken -/
@@ -140,6 +145,8 @@ theorem lost_wakeup_stuck : ∀ (evs : List Ev) (s s' : St), s.pc = .waiting →
       · -- reconnect
         have := ih _ s' (by simpa using h1) (by simpa using h2) (by simpa using h3) hrest hr
         simpa using this
+      · -- any other session event
+        exact ih _ s' h1 h2 h3 hrest hr
       · -- sweep
         have := ih _ s' (by simpa using h1) (by simpa using h2) (by simpa using h3) hrest hr
         simp [h1, h3] at this
